@@ -535,4 +535,5 @@ void register_rect_b();
 void register_rect_c();
 void register_rect_d();
 void register_vec();
+void register_dim();
 }
